@@ -139,7 +139,7 @@ const rows = " VALUES (1,10),(2,20)"
 
 // drawProbe builds a probe statement. curDB is the session's current database: objects in it
 // may be named without qualifier.
-func drawProbe(rt *rapid.T, curDB string, hint *need) probe {
+func drawProbe(rt *rapid.T, curDB string, hint *need, excluded func(id string)) probe {
 	kinds := []string{"select", "select", "insert", "update", "delete", "create", "drop", "alter", "index", "call", "call", "join", "subquery", "insert-select", "replace", "truncate", "rename"}
 	db := rapid.SampledFrom(dbs).Draw(rt, "pdb")
 	tbl := rapid.SampledFrom([]string{"t1", "t2"}).Draw(rt, "ptbl")
@@ -164,12 +164,19 @@ func drawProbe(rt *rapid.T, curDB string, hint *need) probe {
 			}
 		}
 	}
-	if curDB == "" && kind == "delete" || curDB != db && kind == "rename" {
-		// without a selected database the engine rejects DELETE FROM db.t ("database not found: ")
-		// and RENAME TABLE ("no database selected") for every user including root, and RENAME
-		// TABLE acts on the *current* database whatever the qualifier says (witness in
-		// TestC39RenameQualifier): neither is a privilege decision, so DELETE is probed with a
-		// database selected and RENAME only inside the current database
+	if curDB == "" && kind == "delete" && kf.Listed(kfCurDB) || curDB != db && kind == "rename" && kf.Listed(kfRename) {
+		// Regions of two findings (excluded only while they are listed, searched again after a fix):
+		// kfCurDB — DELETE FROM db.t resolves the session's current database, so without a selected
+		// database it fails with "database not found: " for every user including root;
+		// kfRename — RENAME TABLE db.t TO db.x acts on the *current* database whatever the qualifiers
+		// say (and fails with "no database selected" without one).
+		// While listed, DELETE is probed with a database selected and RENAME only inside the current
+		// database.
+		if kind == "delete" {
+			excluded(kfCurDB)
+		} else {
+			excluded(kfRename)
+		}
 		kind = map[string]string{"delete": "replace", "rename": "truncate"}[kind]
 	}
 	odb := rapid.SampledFrom(dbs).Draw(rt, "odb") // database of the second table of two-table probes
@@ -449,7 +456,7 @@ func (c *caseState) probe() {
 	if acct != nil && rapid.IntRange(0, 9).Draw(rt, "aim") < 7 {
 		hint = hintFor(rt, c.m, acct)
 	}
-	p := drawProbe(rt, cur, hint)
+	p := drawProbe(rt, cur, hint, c.st.Excluded)
 
 	// expectation
 	expAllowed, strict := acct != nil, true
